@@ -255,6 +255,21 @@ func runC16(ctx *core.Ctx) {
 				cs.Nontrivial(core.Hash(fmt.Sprint(cs.Index), in, fmt.Sprint("r", o, v)))
 			}
 		}
+		// both sides fail: the source at a random offset and the destination at a random write
+		for k := 0; k < 6 && W > 0; k++ {
+			fr := &faultReader{data: []byte(in), at: cs.R.Intn(len(in) + 1), withData: k%2 == 0}
+			fw := &faultWriter{failAt: cs.R.Intn(W), mode: cs.R.Intn(4)}
+			err := env.Pol.SanitizeReaderToWriter(fr, faultStringWriter{fw})
+			cs.Eval()
+			lc["double_faults_injected"]++
+			if err == nil {
+				cs.Violate("C16:double-fault:nil-error", fmt.Sprintf("source failing at offset %d and destination failing at write %d: SanitizeReaderToWriter returned nil; input=%q", fr.at, fw.failAt, core.Clip(in, 200)), wit(map[string]interface{}{"offset": fr.at, "k": fw.failAt}))
+			}
+			// (a prefix of the fault-free output is only owed when the source delivered the whole input)
+			if got := fw.accepted.String(); fr.at == len(in) && !strings.HasPrefix(want, got) {
+				cs.Violate("C16:double-fault:not-a-prefix", fmt.Sprintf("source failing at offset %d and destination failing at write %d: accepted bytes are not a prefix of the fault-free output", fr.at, fw.failAt), wit(map[string]interface{}{"offset": fr.at, "k": fw.failAt, "accepted": core.Show(got)}))
+			}
+		}
 		if cs.Ctx.WantSample("pair") && W > 3 && len(in) < 200 {
 			var evs []string
 			for _, e := range ref.events {
